@@ -260,6 +260,8 @@ def hasEnd : List ReadEv → Bool
 /-- the script consists of non-empty `data` events and `pending` events only. -/
 def Clean (rs : List ReadEv) : Prop := hasEnd rs = false
 
+instance (rs : List ReadEv) : Decidable (Clean rs) := by unfold Clean; infer_instance
+
 /-- the next event is an end-of-stream event. -/
 def atEnd : List ReadEv → Bool
   | [] => false
